@@ -28,6 +28,7 @@ TIERS = dict(quick=dict(cases=40000, wall=60.0), thorough=dict(cases=1500000, wa
 def feat_for(tier):
     f = sched.default_feat()
     f["acts"] = dict(cont=8, ret=2, raise_=1, kbint=1, extend=2, remove=2, forever=1)
+    f["manual_step"] = True
     f["enter"] = dict(ok=14, raise_=1, ret=1, kbint=1, sysexit=1)
     f["real"] = True
     f["kbint_sleep"] = True
